@@ -114,6 +114,7 @@ Inductive cmd :=
 | Fail              (* exit 1 *)
 | CatAll (dir : str) (* (cd $PKG_DIR && cat every regular *.txt file there, in glob order) > $OUTS; dir = $PKG_DIR *)
 | UseTool           (* cat $TOOLS $SRCS > $OUTS *)
+| ToolNames         (* for t in $TOOLS; do basename $t; done > $OUTS: depends on the NAMES of the tool outputs *)
 | OutDir.           (* output_dirs = ["_o"]: cp every (file) source into _o by base name; echo fixed > first of $OUTS *)
 
 Inductive kind :=
@@ -307,11 +308,15 @@ Definition source_key (r : repo) (st : store) (t : target) : option skey :=
   | _, _ => None
   end.
 
+(* for the COMMAND a tool output keeps its name ($TOOLS), marked by a leading 0 byte (no temporary path starts with it) *)
+Definition tool_ins (ins : list (path * node)) : list (path * node) :=
+  map (fun pn => ((true, 0%N :: snd (fst pn)), snd pn)) ins.
+
 (* what the command of t reads: $SRCS with their temporary paths, then the outputs of the tools (no temporary path:
    tools stay where they are) *)
 Definition gather_in (r : repo) (st : store) (t : target) : option (list (path * node)) :=
   match gather (read r st) (all_paths r t), gather (read r st) (tool_paths r t) with
-  | Some a, Some b => Some (a ++ anon_ins b)
+  | Some a, Some b => Some (a ++ tool_ins b)
   | _, _ => None
   end.
 
@@ -421,8 +426,10 @@ Definition cat_all (dir : str) (ins : list (str * node)) : str :=
                                      end) [] ins in
   flat_map (fun e => stream (snd e)) es.
 
-(* the inputs of the tools carry no name *)
-Definition is_tool_in (pn : str * node) : bool := match fst pn with [] => true | _ => false end.
+(* the inputs of the tools are marked by a leading 0 byte *)
+Definition is_tool_in (pn : str * node) : bool := match fst pn with c :: _ => N.eqb c 0 | [] => false end.
+Definition tool_names (ins : list (str * node)) : str :=
+  flat_map (fun pn => basename (tl (fst pn)) ++ nl) (filter is_tool_in ins).
 
 Definition copy_entries (ins : list (str * node)) : list (str * node) :=
   fold_left (fun es pn => ins_entry (basename (fst pn)) (snd pn) es) ins [].
@@ -454,6 +461,7 @@ Definition act (k : kind) (outs : list str) (ins : list (str * node)) : option (
                end
       | _ => None
       end
+  | Genrule ToolNames => match outs with [o] => Some [(o, File false (tool_names ins))] | _ => None end
   | Genrule OutDir => None                        (* see od_cmd: its result is more than the declared outs *)
   | TextFile c => match outs with [o] => Some [(o, File false c)] | _ => None end
   | Filegroup => None
